@@ -56,6 +56,15 @@ def gen(rng, tier):
                 for b in (0, 1, 2, sc, sc + 1, max(sc - 1, 0), MAX, B, B + 1, B * B, rng.randrange(1, B), big(rng, 2), big(rng, 3),
                           (sc + rng.randrange(1, 1 << 20))):
                     reqs.append("C01 %s %d %s" % (op, sc, wu(b)))
+        # scalar on the right (`BigUint ± u64/u128`, also `+=`/`-=`): a u128 is always split into `[lo, hi]`, also when
+        # hi == 0; zero and one-digit receivers; underflow must panic for every width
+        for (sfx, bits) in (("u64", 64), ("u128", 128)):
+            top = (1 << bits) - 1
+            for sc in (0, 1, 5, MAX, top, top - 1, 1 << (bits - 1), B if bits > 64 else 7, rng.randrange(top + 1), rng.randrange(1, B)):
+                for a in (0, 1, sc, sc + 1, max(sc - 1, 0), MAX, B, B + 1, B * B, B * B - 1, big(rng, 2), big(rng, 3), big(rng, 6),
+                          val([MAX] * 3)):
+                    reqs.append("C01 u.add_%s %s %d" % (sfx, wu(a), sc))
+                    reqs.append("C01 u.sub_%s %s %d" % (sfx, wu(a), sc))
         # internal add2 on raw slices
         for la in ls:
             for lb in {0, 1, la, max(0, la - 1), max(0, la - 5), la // 2}:
